@@ -5,7 +5,7 @@ import random
 from ..ops import Hist
 from . import common as C
 
-RULE = ("histories from the commit / partial-commit / amend / rebase / cherry-pick / squash generators with unusual file names always on; "
+RULE = ("histories from the commit / partial-commit / amend / rebase / cherry-pick / squash / CI-rewrite (server-side squash or rebase merge by plain git, then `git-ai ci local merge` / `squash-authorship`) generators with unusual file names always on; "
         "before rewrite steps refs/notes/ai is re-laid-out with plumbing (flat, 2/38, 2/2/36, mixed; thorough: plus thousands of synthetic "
         "notes so that git itself picks a deeper fan-out); after EVERY step every note is read through `git ls-tree -r`/`cat-file` and "
         "checked by an independent v3 parser: one note per object under any spelling, parses, schema version, base_commit_sha == commit, "
@@ -73,7 +73,7 @@ def run_case(case):
                 relayouts += 1
                 sc.after_step("relayout %s" % layout)
             before = sc.notes_digest()
-            op = rng.choice(["commit", "commit", "partial", "amend", "rebase", "rebase-dr", "cherry", "squash"])
+            op = rng.choice(["commit", "commit", "partial", "amend", "rebase", "rebase-dr", "cherry", "squash", "ci"])
             where = "op %d %s after %s" % (k, op, layout)
             if op == "commit":
                 sc.do_edit(); sc.commit_all("c")
@@ -84,7 +84,7 @@ def run_case(case):
                 sc.do_edit(author=rng.choice(sc.sessions), kinds=["ins", "rep"]); sc.op_amend()
             else:
                 sc.commit_all("pre")
-                {"rebase": sc.op_rebase, "rebase-dr": sc.op_rebase_delete_recreate, "cherry": sc.op_cherry_pick, "squash": sc.op_squash_merge}[op]()
+                {"rebase": sc.op_rebase, "rebase-dr": sc.op_rebase_delete_recreate, "cherry": sc.op_cherry_pick, "squash": sc.op_squash_merge, "ci": sc.op_ci_rewrite}[op]()
             if sc.notes_digest() != before:
                 written_after += 1
             sc.after_step(where)
